@@ -42,8 +42,11 @@ type Case struct {
 	Pass    string `json:"password,omitempty"` // "" = the family's standard password
 
 	Utxos        []Utxo `json:"utxos"`
-	Layout       string `json:"layout"`        // sep | shared | sepwit
-	ForeignFirst bool   `json:"foreign_first"` // a listed output of somebody else's in front
+	Layout       string `json:"layout"`                 // sep | shared | sepwit | payout
+	Vouts        []int  `json:"vouts,omitempty"`        // payout: output index of each unspent output in the one big funding transaction
+	RecShape     string `json:"record_shape,omitempty"` // shape of the unspent.txt records ("" = node)
+	ForeignFirst bool   `json:"foreign_first"`          // a listed output of somebody else's in front
+	ForeignKind  string `json:"foreign_kind,omitempty"` // script kind of that output ("" = p2pkh)
 
 	Dests   []Dest `json:"dests"`
 	AmtFmt  string `json:"amount_format"` // full | short
@@ -76,7 +79,14 @@ func (c *Case) label() string {
 	for _, x := range c.Dests {
 		d = append(d, fmt.Sprintf("%s/k%d=%d", x.Kind, x.Key, x.Amount))
 	}
-	return fmt.Sprintf("type%d/%s/testnet=%v utxos[%s %s ff=%v] dests[%s]", c.Type, c.AType, c.Testnet, strings.Join(u, ","), c.Layout, c.ForeignFirst, strings.Join(d, ","))
+	lay := c.Layout
+	if c.Layout == "payout" {
+		lay = fmt.Sprintf("payout%v", c.Vouts)
+	}
+	if c.RecShape != "" {
+		lay += " records=" + c.RecShape
+	}
+	return fmt.Sprintf("type%d/%s/testnet=%v utxos[%s %s ff=%v] dests[%s]", c.Type, c.AType, c.Testnet, strings.Join(u, ","), lay, c.ForeignFirst, strings.Join(d, ","))
 }
 
 const defaultFee = 100000
@@ -183,6 +193,27 @@ type folder struct {
 	Listed []listedOut
 }
 
+// the co-signer: somebody else's key, whose output may be listed in front and
+// whose (valid) signature is on the transaction offered with -raw
+func foreignPriv() []byte { return tagHash("c13 foreign co-signer key") }
+
+func foreignKeyScript(kind string) []byte {
+	pub := refsig.PubkeyFromPriv(foreignPriv(), true)
+	h := refaddr.Hash160(pub)
+	switch kind {
+	case "", kP2PKH:
+		return refaddr.P2PKHScript(h)
+	case kP2SH:
+		return refaddr.P2SHScript(refaddr.Hash160(append([]byte{0, 20}, h...)))
+	case kP2W:
+		return refaddr.WitnessScript(0, h)
+	case kP2TR:
+		return refaddr.WitnessScript(1, pub[1:])
+	}
+	ev.HarnessError("unknown foreign kind %q", kind)
+	return nil
+}
+
 func foreignScript(tag string) []byte {
 	return refaddr.P2PKHScript(tagHash("c13 foreign utxo ", tag)[:20])
 }
@@ -213,7 +244,7 @@ func buildFolder(id *identity, c *Case) *folder {
 		f.Listed = append(f.Listed, lo)
 	}
 	if c.ForeignFirst {
-		t := fund("foreign-first", []reftx.Out{{Value: 100000000, Script: foreignScript("first")}}, false)
+		t := fund("foreign-first", []reftx.Out{{Value: 100000000, Script: foreignKeyScript(c.ForeignKind)}}, false)
 		add(t, 0, nil)
 	}
 	scr := func(u Utxo) []byte { return id.Script[u.Kind][u.Key%nKeys] }
@@ -238,17 +269,83 @@ func buildFolder(id *identity, c *Case) *folder {
 				add(t, 0, &c.Utxos[i])
 			}
 		}
+	case "payout":
+		// one big funding transaction (an exchange payout, a mining pool): every output
+		// pays one of the wallet's keys, all values differ, most outputs were spent long
+		// ago; only the outputs at c.Vouts are still unspent and listed
+		if len(c.Vouts) < len(c.Utxos) {
+			ev.HarnessError("payout layout needs an output index per unspent output")
+		}
+		n := 1200
+		at := map[int]int{}
+		for j := range c.Utxos {
+			if _, dup := at[c.Vouts[j]]; dup || c.Vouts[j] < 0 {
+				ev.HarnessError("payout layout: bad output indexes %v", c.Vouts)
+			}
+			at[c.Vouts[j]] = j
+			if c.Vouts[j]+57 > n {
+				n = c.Vouts[j] + 57
+			}
+		}
+		outs := make([]reftx.Out, n)
+		for i := range outs {
+			if j, ok := at[i]; ok {
+				outs[i] = reftx.Out{Value: c.Utxos[j].Amount, Script: scr(c.Utxos[j])}
+			} else {
+				outs[i] = reftx.Out{Value: uint64(1000000 + 100*i), Script: id.Script[kinds[i%len(kinds)]][i%nKeys]}
+			}
+		}
+		t := fund("payout", outs, false)
+		for j := range c.Utxos {
+			add(t, c.Vouts[j], &c.Utxos[j])
+		}
 	default:
 		ev.HarnessError("unknown layout %q", c.Layout)
 	}
 	var sb strings.Builder
 	for i, l := range f.Listed {
 		a, _ := refaddr.ScriptToAddress(l.Script, id.Testnet)
-		// the line format of the node (lib/utxo UnspentTextLine)
-		fmt.Fprintf(&sb, "%s # %s BTC @ %s, block %d\n", l.outpoint.String(), fmtAmount(l.Value, "full"), a, 100+i)
+		sb.WriteString(recordLine(c.RecShape, l, a, i))
 	}
-	f.Files["balance/unspent.txt"] = []byte(sb.String())
+	txt := sb.String()
+	if c.RecShape == "no-final-newline" {
+		txt = strings.TrimSuffix(txt, "\n")
+	}
+	f.Files["balance/unspent.txt"] = []byte(txt)
 	return f
+}
+
+// recordShapes: the forms in which a record of balance/unspent.txt reaches the
+// wallet. node = lib/utxo UnspentTextLine (client web UI export, tools/balio);
+// node-label = the same with the wallet name / label / virgin marker the node
+// appends; wallet = what wallet/unspent.go apply_to_balance writes for a new output;
+// bare / bare-space = a record without label, as typed and as the wallet rewrites
+// it (TxPrevOut.String() + " " + empty label); crlf = the export after passing a
+// Windows editor; unpadded = a hand-written record whose index is not padded to
+// three digits; no-final-newline = the last line is not terminated.
+var recordShapes = []string{"node", "node-label", "wallet", "bare", "bare-space", "crlf", "unpadded", "no-final-newline"}
+
+func recordLine(shape string, l listedOut, addr string, i int) string {
+	op := l.outpoint.String() // <txid>-%03d, as TxPrevOut.String() prints it
+	amt := fmtAmount(l.Value, "full")
+	switch shape {
+	case "", "node", "no-final-newline":
+		return fmt.Sprintf("%s # %s BTC @ %s, block %d\n", op, amt, addr, 100+i)
+	case "node-label":
+		return fmt.Sprintf("%s # %s BTC @ %s c13wallet: TypC %d ***, block %d\n", op, amt, addr, i+1, 100+i)
+	case "wallet":
+		return fmt.Sprintf("%s # %s BTC @ %s\n", op, amt, addr)
+	case "bare":
+		return op + "\n"
+	case "bare-space":
+		return op + " \n"
+	case "crlf":
+		return fmt.Sprintf("%s # %s BTC @ %s, block %d\r\n", op, amt, addr, 100+i)
+	case "unpadded":
+		return fmt.Sprintf("%s-%d # %s BTC @ %s, block %d\n", revHex(l.Prev), l.Vout, amt, addr, 100+i)
+	}
+	ev.HarnessError("unknown record shape %q", shape)
+	return ""
 }
 
 func writeFiles(dir string, files map[string][]byte) {
@@ -388,7 +485,7 @@ func shellQuote(args []string) string {
 // complexity orders cases for reporting: fewer outputs, destinations and options first.
 func (c *Case) complexity() int {
 	n := 10*len(c.Utxos) + 10*len(c.Dests) + 3*len(c.Raw)
-	for _, b := range []bool{c.ForeignFirst, c.Layout != "sep", c.AmtFmt != "full", c.Via != "send", c.Fee != "", c.SubFee, c.Change != "", c.Msg != "",
+	for _, b := range []bool{c.ForeignFirst, c.Layout != "sep", c.RecShape != "" && c.RecShape != "node", c.AmtFmt != "full", c.Via != "send", c.Fee != "", c.SubFee, c.Change != "", c.Msg != "",
 		c.Seq != nil, c.Lock != nil, c.TxVer != nil, c.UseAll, c.RFC6979, c.TxFn != "", c.NoApply, c.RawFlags, c.RawBinary, c.Chain, c.Testnet, c.Type != 3} {
 		if b {
 			n++
